@@ -1,75 +1,83 @@
 (* Properties_Observers.v — the checks cannot alarm on behaviour the model allows.
    The correspondence check evaluates, on every trace of the library, the boolean observers
    observer_u n / observer_n n (n = 1, 2, 4, 6..12, 14..17; the constant `true` for any other n).
-   Here: for EVERY script of well-formed calls, of any length, every one of these observers is
-   true at every step of the model's own run — for the unicode tables and for the tables of the
-   non-unicode build.  So an observer that fires on the library exhibits a behaviour the model
-   does not have (a deviation of the code from the model, i.e. from the property theorems), never
-   an over-strict check. *)
-Require Import ObsRun Lemmas_Tuning Lemmas_Settings Lemmas_Ecc Lemmas_Ext Lemmas_Callbacks Lemmas_TabEcc
-               Lemmas_TabConv Lemmas_Narrow Lemmas_ObsCb Properties_C14.
+   Here, for ANY character table whose entries are printable and ANY ECC table whose entries are
+   country enumerators: for EVERY script of well-formed calls, of any length, every one of these
+   observers is true at every step of the model's own run.  (The two table facts are checked for the
+   tables measured on the library in Properties_ObserversInst.v; this file does not depend on the
+   generated tables, so that a table edit disturbs only the properties that talk about tables.)
+   So an observer that fires on the library exhibits a behaviour the model does not have (a
+   deviation of the code from the model, i.e. from the property theorems), never an over-strict
+   check. *)
+Require Import ObsRun Lemmas_Tuning Lemmas_Settings Lemmas_Ecc Lemmas_Ext Lemmas_Callbacks Lemmas_ObsCb Properties_C14.
 Local Open Scope Z_scope.
+
+(* the observer dispatcher of Inst.v, for an arbitrary ECC table *)
+Definition observer_g (conv : Z -> Z) (lut : Z -> Z -> Z) (n : Z) : observer_t :=
+  if n =? 1 then obs_C01
+  else if n =? 2 then obs_C02 conv
+  else if n =? 4 then obs_C04
+  else if n =? 6 then obs_C06 conv
+  else if n =? 7 then obs_C07
+  else if n =? 8 then obs_C08 conv
+  else if n =? 9 then obs_C09 lut
+  else if n =? 10 then obs_C10
+  else if n =? 11 then obs_C11 lut
+  else if n =? 12 then obs_C12
+  else if n =? 14 then obs_C14
+  else if n =? 15 then obs_C15
+  else if n =? 16 then obs_C16 conv
+  else if n =? 17 then obs_C17
+  else fun _ _ _ _ _ => true.
+Lemma observer_is_g conv n : observer conv n = observer_g conv lut_g n.
+Proof. reflexivity. Qed.
 
 Section AnyTables.
 Variable conv : Z -> Z.
+Variable lut : Z -> Z -> Z.
 Hypothesis conv_printable : forall b, 32 <= b < 256 -> printable (conv b) = true.
 Hypothesis conv_space : conv 32 = 32.
+Hypothesis lut_range : forall n e, 0 <= lut n e < 221.
 
-Theorem every_observer_every_step : forall n h s o, reach conv lut_g h s -> wf_op o ->
-  observer conv n (o :: h) (snap_of s) (snap_of (fst (step conv lut_g s o))) (snd (step conv lut_g s o)) (ret_of o) = true.
+Theorem every_observer_every_step : forall n h s o, reach conv lut h s -> wf_op o ->
+  observer_g conv lut n (o :: h) (snap_of s) (snap_of (fst (step conv lut s o))) (snd (step conv lut s o)) (ret_of o) = true.
 Proof.
-  intros n h s o Hr Wo. unfold observer.
-  destruct (n =? 1); [exact (C01_observer_holds conv lut_g h s o Hr Wo)|].
-  destruct (n =? 2); [exact (obs_C02_holds conv lut_g h s o _ Hr Wo)|].
-  destruct (n =? 4); [exact (obs_C04_holds conv lut_g h s o _ Hr Wo)|].
-  destruct (n =? 6); [exact (obs_C06_holds conv lut_g h s o _ Hr Wo)|].
-  destruct (n =? 7); [exact (obs_C07_holds conv lut_g h s o _ Hr Wo)|].
-  destruct (n =? 8); [exact (obs_C08_holds conv lut_g h s o _ Hr Wo)|].
-  destruct (n =? 9); [exact (C09_observer_holds conv lut_g lut_g_range h s o Hr Wo)|].
-  destruct (n =? 10); [exact (obs_C10_holds conv lut_g h s o _ Hr Wo)|].
-  destruct (n =? 11); [exact (C11_observer_holds conv lut_g lut_g_range h s o Hr Wo)|].
-  destruct (n =? 12); [exact (C12_observer_holds conv lut_g h s o Hr Wo)|].
-  destruct (n =? 14); [exact (C14_observer conv lut_g s o h)|].
-  destruct (n =? 15); [exact (C15_observer_holds conv lut_g h s o Hr Wo)|].
-  destruct (n =? 16); [exact (obs_C16_holds conv lut_g conv_printable conv_space h s o _ Hr Wo)|].
-  destruct (n =? 17); [exact (C17_observer_holds conv lut_g h s o Hr Wo)|].
+  intros n h s o Hr Wo. unfold observer_g.
+  destruct (n =? 1); [exact (C01_observer_holds conv lut h s o Hr Wo)|].
+  destruct (n =? 2); [exact (obs_C02_holds conv lut h s o _ Hr Wo)|].
+  destruct (n =? 4); [exact (obs_C04_holds conv lut h s o _ Hr Wo)|].
+  destruct (n =? 6); [exact (obs_C06_holds conv lut h s o _ Hr Wo)|].
+  destruct (n =? 7); [exact (obs_C07_holds conv lut h s o _ Hr Wo)|].
+  destruct (n =? 8); [exact (obs_C08_holds conv lut h s o _ Hr Wo)|].
+  destruct (n =? 9); [exact (C09_observer_holds conv lut lut_range h s o Hr Wo)|].
+  destruct (n =? 10); [exact (obs_C10_holds conv lut h s o _ Hr Wo)|].
+  destruct (n =? 11); [exact (C11_observer_holds conv lut lut_range h s o Hr Wo)|].
+  destruct (n =? 12); [exact (C12_observer_holds conv lut h s o Hr Wo)|].
+  destruct (n =? 14); [exact (C14_observer conv lut s o h)|].
+  destruct (n =? 15); [exact (C15_observer_holds conv lut h s o Hr Wo)|].
+  destruct (n =? 16); [exact (obs_C16_holds conv lut conv_printable conv_space h s o _ Hr Wo)|].
+  destruct (n =? 17); [exact (C17_observer_holds conv lut h s o Hr Wo)|].
   reflexivity.
 Qed.
 
-Theorem every_observer_along : forall n ops h s, reach conv lut_g h s -> Forall wf_op ops ->
-  obs_along (step conv lut_g) (observer conv n) h s ops = true.
+Theorem every_observer_along : forall n ops h s, reach conv lut h s -> Forall wf_op ops ->
+  obs_along (step conv lut) (observer_g conv lut n) h s ops = true.
 Proof.
   intros n ops. induction ops as [|o r IH]; intros h s Hr Hw; [reflexivity|].
   inversion Hw as [|x l Wo Wr]; subst. cbn [obs_along].
-  destruct (step conv lut_g s o) as [s' evs] eqn:E.
+  destruct (step conv lut s o) as [s' evs] eqn:E.
   pose proof (every_observer_every_step n h s o Hr Wo) as H1. rewrite E in H1. cbn [fst snd] in H1. rewrite H1.
   cbn [andb]. apply IH; [|exact Wr].
-  pose proof (reach_step conv lut_g h s o Hr Wo) as Hr'. rewrite E in Hr'. exact Hr'.
+  pose proof (reach_step conv lut h s o Hr Wo) as Hr'. rewrite E in Hr'. exact Hr'.
 Qed.
+
+(* from the initial state: what the check runs *)
+Theorem observers_never_alarm_on_the_model_gen : forall n ops, Forall wf_op ops ->
+  obs_along (step conv lut) (observer_g conv lut n) [OInit] init_state ops = true.
+Proof. intros n ops Hw. apply every_observer_along; [apply reach_init|exact Hw]. Qed.
 
 End AnyTables.
-
-(* the unicode build *)
-Theorem observers_never_alarm_on_the_model : forall n ops, Forall wf_op ops ->
-  check_run_u (observer_u n) ops = true.
-Proof.
-  intros n ops Hw. unfold check_run_u, observer_u, step_u.
-  apply (every_observer_along conv_u (proj1 (conv_printable_spec conv_u conv_unicode_printable))
-                              (proj2 (conv_printable_spec conv_u conv_unicode_printable)) n ops [OInit] init_state);
-    [apply reach_init|exact Hw].
-Qed.
-Print Assumptions observers_never_alarm_on_the_model.
-
-(* the non-unicode build *)
-Theorem observers_never_alarm_on_the_model_narrow : forall n ops, Forall wf_op ops ->
-  check_run_n (observer_n n) ops = true.
-Proof.
-  intros n ops Hw. unfold check_run_n, observer_n, step_n.
-  apply (every_observer_along conv_n (proj1 (conv_printable_spec conv_n conv_narrow_printable))
-                              (proj2 (conv_printable_spec conv_n conv_narrow_printable)) n ops [OInit] init_state);
-    [apply reach_init|exact Hw].
-Qed.
-Print Assumptions observers_never_alarm_on_the_model_narrow.
+Print Assumptions observers_never_alarm_on_the_model_gen.
 
 (* non-vacuity: the scenario of the Examples is such a script *)
 Example scenario_wf : Forall wf_op scenario.
